@@ -114,8 +114,18 @@ class LayerMerger(LayerMerger):
                     result.paste(img, (0, 0))
             else:
                 if opacity is not None and opacity < 1.0:
+                    alpha = None
+                    if img.mode in ('RGBA', 'LA', 'P'):
+                        # keep transparent parts of the layer transparent,
+                        # Image.blend ignores the alpha channel of the layer
+                        img = img.convert('RGBA')
+                        alpha = img.split()[3]
                     img = img.convert(result.mode)
-                    result = Image.blend(result, img, layer_image_opts.opacity)
+                    blended = Image.blend(result, img, layer_image_opts.opacity)
+                    if alpha is not None:
+                        result = Image.composite(blended, result, alpha)
+                    else:
+                        result = blended
                 elif img.mode in ('RGBA', 'P'):
                     # assume paletted images have transparency
                     if img.mode == 'P':
